@@ -48,6 +48,13 @@ def dest_path(tmpdir, x):
     return os.path.join(tmpdir, name)
 
 
+def make_dir_destination(path):
+    """The destination name is an existing, non-empty directory: requests can succeed, publishing (a rename onto it) cannot."""
+    os.mkdir(path)
+    with open(os.path.join(path, 'keep'), 'wb') as f:
+        f.write(b'k')
+
+
 def temp_leftovers(dest):
     """Files beside ``dest`` that look like the library's temporary names for it (base name, possibly truncated to make
     room, plus '.' and 8 hex digits)."""
@@ -173,7 +180,9 @@ def prepare_xfer(obs, x):
         if dst == 'path':
             path = dest_path(tmpdir, x)
             osu.labels[path] = x.label
-            if t.get('preexisting'):
+            if t.get('dst_is_dir'):
+                make_dir_destination(path)
+            elif t.get('preexisting'):
                 x.prev = b'previous-content-' + str(x.idx).encode()
                 with open(path, 'wb') as f:
                     f.write(x.prev)
